@@ -28,6 +28,18 @@ prop('C19', 'model_checking',
      'saml2_tophat.time_util.time/datetime; expiry 0 with stored information left unspecified',
      'TLA+ state machine + TLC exhaustive + transition replay + TLC trace validation', 'section 5 C19')
 
+prop('C18', 'model_checking',
+     'IdentDB.tla models issue / lookup / mapping / manage-name-id / removal over the relation user <-> name '
+     'identifier with fresh tokens; TLC checks two-way consistency, uniqueness, freshness, stability, no cross-SP/'
+     'cross-user linkage and all-or-nothing removal in every reachable state; every explored transition is executed '
+     'on the real dict- and shelve-backed IdentDB from a constructed state (nondeterministic outcomes grouped), '
+     'simulator behaviours are replayed, recorded random executions are validated by TLC with the full projected state '
+     'after every call; NameIdCode.tla checks reversibility/injectivity of the storage-key escaping design and its '
+     'enumerated cases run on the real code()/decode()',
+     'bounded instance (2-3 users x 2-3 SPs, <= 3 identifiers exhaustively, <= 12 in simulation); random texts '
+     'mapped to tokens by first appearance; strings over a 10-class alphabet up to length 2',
+     'TLA+ state machine + TLC exhaustive + transition replay + TLC trace validation', 'section 5 C18')
+
 
 def main():
     props = [json.loads(l) for l in open(os.path.join(VERIF, 'properties.jsonl'))]
